@@ -113,6 +113,8 @@ def pow2_facts(ctx, e):
         return
     ctx.ghost[key] = True
     lst = ctx.ghost.setdefault("pow2_terms", [])
+    if z3.is_int_value(e) and 0 <= e.as_long() <= 8192:
+        ctx.axiom(Pow2(e) == z3.IntVal(2 ** e.as_long()), "Pow2 at a concrete exponent")
     ctx.axiom(z3.Implies(e >= 0, Pow2(e) >= 1), "Pow2(e) >= 1 for e >= 0")
     ctx.axiom(z3.Implies(e == 0, Pow2(e) == 1), "Pow2(0) = 1")
     for other in lst:
@@ -206,7 +208,33 @@ def ref_JSONParse(b):
 
 
 def is_ascii(ctx, s):
+    """ASCII-ness of a text term: decided structurally when every piece of a concatenation is a
+    literal or already known to be ASCII (keeps the string solver out of token assembly)."""
+    s = simp(s)
+    parts = _flatten(s)
+    ok = True
+    for p in parts:
+        if z3.is_string_value(p):
+            from .core import str_value
+            if all(ord(c) < 128 for c in str_value(p)):
+                continue
+            return z3.BoolVal(False)
+        if ctx.known(z3.InRe(p, ASCII_RE)) or is_rep_of(p, "="):
+            continue
+        ok = False
+        break
+    if ok:
+        return z3.BoolVal(True)
     return z3.InRe(s, ASCII_RE)
+
+
+def _flatten(t):
+    if z3.is_app(t) and t.decl().kind() == z3.Z3_OP_SEQ_CONCAT:
+        out = []
+        for i in range(t.num_args()):
+            out.extend(_flatten(t.arg(i)))
+        return out
+    return [t]
 
 
 def utf8_encode(ctx, s):
